@@ -24,6 +24,7 @@ import tempfile
 import time
 
 VERIF = os.path.dirname(os.path.dirname(os.path.abspath(__file__)))
+OUT = os.environ.get('VERIF_OUT', VERIF)      # where evidence/ and replays/ are written
 SPEC = os.path.join(VERIF, 'spec')
 REPO = os.environ.get('VERIF_REPO', '/repo')
 TLA_JAR = '/opt/veriftools/tla/tla2tools.jar'
@@ -482,9 +483,15 @@ def finish(ctx):
     for fid, (e, n) in sorted(known_hit.items()):
         print('KNOWN-FINDING: property=%s %s [%s; %d observation(s) this run]'
               % (ctx.prop, e['what'], fid, n))
-    rdir = os.path.join(VERIF, 'replays', ctx.prop)
+    rdir = os.path.join(OUT, 'replays', ctx.prop)
     seen = set()
     printed = 0
+    by_clause = {}
+    for v in real:
+        k = (v['clause'], json.dumps(v['tags'], sort_keys=True, default=str))
+        by_clause[k] = by_clause.get(k, 0) + 1
+    for (cl, tg), n in sorted(by_clause.items()):
+        print('  violated clause %s tags=%s: %d observation(s)' % (cl, tg, n))
     for v in real:
         key = _hash({'clause': v['clause'], 'case': v['case']})
         if key in seen:
@@ -509,8 +516,8 @@ def finish(ctx):
     ev = {'property_id': ctx.prop, 'tier': ctx.tier, 'seed': ctx.seed, 'level': ctx.level,
           'coverage': cov, 'assumptions': ctx.assumptions,
           'wall_s': round(time.time() - ctx.t0, 2), 'violations': len(seen)}
-    os.makedirs(os.path.join(VERIF, 'evidence'), exist_ok=True)
-    with open(os.path.join(VERIF, 'evidence', ctx.prop + '.json'), 'w') as f:
+    os.makedirs(os.path.join(OUT, 'evidence'), exist_ok=True)
+    with open(os.path.join(OUT, 'evidence', ctx.prop + '.json'), 'w') as f:
         json.dump(ev, f, indent=1, default=str)
     print('%s %s: evaluations=%d distinct_nontrivial=%d violations=%d known=%d wall=%.1fs'
           % (ctx.prop, ctx.tier, cov['evaluations'], cov['distinct_nontrivial'], len(seen),
